@@ -16,6 +16,7 @@ import (
 	"reflect"
 	"regexp"
 	"slices"
+	"strings"
 	"time"
 )
 
@@ -256,7 +257,31 @@ func forType(t reflect.Type, seen map[reflect.Type]bool, ignore bool, schemas ma
 			if s.Properties == nil {
 				s.Properties = make(map[string]*Schema)
 			}
-			if field.Anonymous {
+			// Check to see if this field has been promoted from a replaced anonymous
+			// type.
+			if skipPath != nil {
+				skip := false
+				if len(field.Index) >= len(skipPath) {
+					skip = true
+					for i, index := range skipPath {
+						if field.Index[i] != index {
+							// If we're no longer in a subfield.
+							skip = false
+							break
+						}
+					}
+				}
+				if skip {
+					continue
+				} else {
+					// Anonymous fields are followed immediately by their promoted fields.
+					// Once we encounter a field that *isn't* promoted, we can stop
+					// checking.
+					skipPath = nil
+				}
+			}
+
+			if field.Anonymous && embeddedIsFlattened(field) {
 				override := schemas[field.Type]
 				if override != nil {
 					// Type must be object, and only properties can be set.
@@ -292,31 +317,18 @@ func forType(t reflect.Type, seen map[reflect.Type]bool, ignore bool, schemas ma
 				continue
 			}
 
-			// Check to see if this field has been promoted from a replaced anonymous
-			// type.
-			if skipPath != nil {
-				skip := false
-				if len(field.Index) >= len(skipPath) {
-					skip = true
-					for i, index := range skipPath {
-						if field.Index[i] != index {
-							// If we're no longer in a subfield.
-							skip = false
-							break
-						}
-					}
-				}
-				if skip {
-					continue
-				} else {
-					// Anonymous fields are followed immediately by their promoted fields.
-					// Once we encounter a field that *isn't* promoted, we can stop
-					// checking.
-					skipPath = nil
+			info := fieldJSONInfo(field)
+			if field.Anonymous {
+				// encoding/json does not flatten this embedded field: it is an ordinary
+				// field (or omitted), and the fields it promotes are not properties.
+				skipPath = field.Index
+				if !field.IsExported() && embeddedElemKind(field) == reflect.Struct {
+					// An embedded struct of unexported type is marshaled like an exported one.
+					exported := field
+					exported.PkgPath = ""
+					info = fieldJSONInfo(exported)
 				}
 			}
-
-			info := fieldJSONInfo(field)
 			if info.omit {
 				continue
 			}
@@ -399,3 +411,23 @@ func init() {
 
 // Disallow jsonschema tag values beginning "WORD=", for future expansion.
 var disallowedPrefixRegexp = regexp.MustCompile("^[^ \t\n]*=")
+
+// embeddedElemKind returns the kind of the embedded field's type, after removing one pointer.
+func embeddedElemKind(f reflect.StructField) reflect.Kind {
+	t := f.Type
+	if t.Kind() == reflect.Pointer {
+		t = t.Elem()
+	}
+	return t.Kind()
+}
+
+// embeddedIsFlattened reports whether encoding/json promotes the fields of the
+// embedded field f into the enclosing object: f must be a struct or pointer to
+// struct, and its json tag must not give it a name (or omit it with "-").
+func embeddedIsFlattened(f reflect.StructField) bool {
+	if embeddedElemKind(f) != reflect.Struct {
+		return false
+	}
+	name, _, _ := strings.Cut(f.Tag.Get("json"), ",")
+	return name == ""
+}
